@@ -96,6 +96,9 @@ def _exec(self, s, st, frame):
         v = v.with_taint(self.pc) if self.pc else v
         frame.rets.append((v, st.heap))
         frame.last_end = 'return'
+        want = self.capture_locals.get(frame.fsym.qname)
+        if want:
+            self.captured.setdefault(frame.fsym.qname, []).append({k: st.env.get(k) for k in want})
         return None
     if isinstance(s, ast.Raise):
         frame.last_end = 'raise'
